@@ -721,6 +721,8 @@ class PosInterp:
                 return a + b
             if (isinstance(a, str) and isinstance(b, str)) or (isinstance(a, tuple) and isinstance(b, tuple)):
                 return a + b                  # concrete texts / tuples
+            if (isinstance(a, list) and isinstance(b, tuple)) or (isinstance(a, tuple) and isinstance(b, list)):
+                raise Raised(f'TypeError: can only concatenate {type(a).__name__} (not "{type(b).__name__}") to {type(a).__name__}')
             return add(a, b)
         if isinstance(op, ast.Sub):
             return add(a, b, -1)
@@ -819,6 +821,8 @@ class PosInterp:
                     return base.f[e.attr]
                 m = self.method(base.cls, e.attr)
                 if m is not None:
+                    if getattr(m, 'kind', None) == 'getter':
+                        return self.call_function(m, [base], {})          # a property of the object's class: read it
                     return Bound(base, m)
                 raise self.err(e, f'attribute {e.attr} of {base.cls}')
             if isinstance(base, ClassRef):
@@ -1349,8 +1353,10 @@ def _histories(mk: Any, call: Any, note: Any, positions: bool) -> int:
         layout = layout if isinstance(layout, list) else [layout]
         for op in ('insert_after', 'insert_before', 'remove', 'replace', 'splice') + (('update',) if positions else ()):
             for i in range(total):
-                for j in ([i] if op in ('insert_after', 'insert_before', 'replace') else range(i, total)):
-                    lay = f'blocks of {layout} tokens'
+                for j, as_tuple in [(j_, t_) for j_ in ([i] if op in ('insert_after', 'insert_before', 'replace') else range(i, total))
+                                    for t_ in ((False, True) if op in ('insert_after', 'insert_before', 'splice') and not positions else (False,))]:
+                    # the new tokens are a Sequence: a tuple is as good as a list
+                    lay = f'blocks of {layout} tokens' + (' (new tokens given as a tuple)' if as_tuple else '')
                     store, flat, coord = mk(layout)
 
                     def query(flat_now: list[Obj], when: str) -> None:
@@ -1402,10 +1408,10 @@ def _histories(mk: Any, call: Any, note: Any, positions: bool) -> int:
                             query(flat, f'after update of token {i} to a text {"with" if new_nl else "without"} a newline (and queries before it)')
                         continue
                     if op == 'insert_after':
-                        _, ex, _ = call(op, store, flat[i], new2, live=True)
+                        _, ex, _ = call(op, store, flat[i], tuple(new2) if as_tuple else new2, live=True)
                         want = flat[:i + 1] + new2 + flat[i + 1:]
                     elif op == 'insert_before':
-                        _, ex, _ = call(op, store, flat[i], new2, live=True)
+                        _, ex, _ = call(op, store, flat[i], tuple(new2) if as_tuple else new2, live=True)
                         want = flat[:i] + new2 + flat[i:]
                     elif op == 'remove':
                         _, ex, _ = call(op, store, flat[i], flat[j], live=True)
@@ -1414,7 +1420,7 @@ def _histories(mk: Any, call: Any, note: Any, positions: bool) -> int:
                         _, ex, _ = call(op, store, flat[i], new2[0], live=True)
                         want = flat[:i] + new2[:1] + flat[i + 1:]
                     else:
-                        _, ex, _ = call(op, store, new2, flat[i], flat[j], live=True)
+                        _, ex, _ = call(op, store, tuple(new2) if as_tuple else new2, flat[i], flat[j], live=True)
                         want = flat[:i] + new2 + flat[j + 1:]
                     if ex:
                         note(op, f'{lay}: {op} of tokens {i}..{j} raises {ex}')
